@@ -793,3 +793,6 @@ M2("m164", "C08", ["R8.9"], [
 B("b55", ["C08", "C09", "C05", "C12"], VI, "        for _ in range(max_iterations):\n            self.iteration += 1\n            new_values, conv = self._iteration_step()\n",
   "        if max_iterations <= 0:\n            return self.solver_state\n        for _ in range(max_iterations):\n            self.iteration += 1\n            new_values, conv = self._iteration_step()\n",
   "early return for a non-positive limit: outside the property (positive limits)")
+B("b56", ["C08", "C09", "C12", "C01", "C05"], VI, "            self.values = new_values\n\n            logger.info(\n                f\"Iteration {self.iteration}: {self._convergence_desc}",
+  "            self.values, self._last_conv = new_values, None\n\n            logger.info(\n                f\"Iteration {self.iteration}: {self._convergence_desc}",
+  "parallel assignment of the iterate and an unrelated attribute")
